@@ -214,8 +214,6 @@ func vpC14Lens() []int {
 	return []int{1, 4091, 4092, 4093, 8187, 8188, 8189}
 }
 
-
-
 // vpCheckOccupancy: the representation invariant linking the in-memory sector
 // map to the header - a sector is marked used exactly when it is a header
 // sector or belongs to the run of some header entry. It is what makes a
